@@ -50,7 +50,8 @@ func init() {
 		return L(L(rs...), B(c16HeldStateOK(sb, keys)))
 	}
 	// ONE []string, ONE SigBits built from it; steps [0,s,e,m] sb.CountPrefixes, [1,maxSize] ShardByPrefix(keys, maxSize)
-	// on the very same slice (result is C17's matter, not observed), [2] FirstDiffBits(keys); then the state flag
+	// on the very same slice (result is C17's matter, not observed), [2] FirstDiffBits(keys), [3,n,s,e,m] the same
+	// CountPrefixes n times (last answer); then the state flag
 	Exec["sigbits.SigBits/session"] = func(a []V) string {
 		keys := a[0].Strs()
 		sb := sigbits.New(keys)
@@ -59,6 +60,13 @@ func init() {
 			switch st.L[0].Int() {
 			case 0:
 				m0, cs := sb.CountPrefixes(st.L[1].I32(), st.L[2].I32(), st.L[3].I32())
+				rs = append(rs, L(I32(m0), I32s(cs)))
+			case 3: // the same query n times, the last answer
+				var m0 int32
+				var cs []int32
+				for i, n := 0, st.L[1].Int(); i < n; i++ {
+					m0, cs = sb.CountPrefixes(st.L[2].I32(), st.L[3].I32(), st.L[4].I32())
+				}
 				rs = append(rs, L(I32(m0), I32s(cs)))
 			case 1:
 				sigbits.ShardByPrefix(keys, st.L[1].I32())
@@ -446,6 +454,27 @@ func genC16(g *Gen) {
 			steps = append(steps, q(0, len(keys), 9))
 			nq++
 			session(keys, steps, nq, nsh, nfd, "rand-session/"+desc[:strings.Index(desc, "/")])
+		}
+	}
+	// (0a') long sessions: a query with a large m (touches many histogram slots), then the SAME cheap query N times
+	// (m = 1: touches none; m = 2 on two keys: slot 0 only), N around 2^16 and 2^17, then neighbours of the first query
+	// with a large m again: per-object scratch validated by a narrow generation counter / call counter wraps here
+	{
+		q := func(s, e, m int) string { return L(Int(0), Int(s), Int(e), Int(m)) }
+		rep := func(n, s, e, m int) string { return L(Int(3), Int(n), Int(s), Int(e), Int(m)) }
+		sets := [][]string{
+			{"a", "b", "ba", "bb"},
+			c16SortDedup([]string{"", "k\x00", "k\x00\x01", "k\x01", "kz", "l"}),
+		}
+		for _, ks := range sets {
+			for _, n := range []int{255, 256, 65534, 65535, 65536, 65537, 131071, 131072} {
+				for _, cheapM := range []int{1, 2} {
+					g.Stat("long-session")
+					steps := []string{q(0, len(ks), 24), rep(n, 0, 2, cheapM), q(0, 2, 24), q(1, 3, 24), q(0, len(ks), 24), q(len(ks)-2, len(ks), 24)}
+					g.Do("sigbits.SigBits/session", L(Strs(ks), L(steps...)),
+						fmt.Sprintf("long/n%d/m%d", c16Bucket(n, 256, 65534, 65535, 65536, 65537, 131071), cheapM))
+				}
+			}
 		}
 	}
 	// (0b) LARGE key sets: prefix + big-endian counter, so that hundreds (thorough: > 65536) of adjacent pairs share
